@@ -723,6 +723,27 @@ func (c *Cond) Broadcast() {
 	s.Yield(sched.KCondSignal, c.st.id)
 }
 
+// OnceValue mirrors sync.OnceValue.
+func OnceValue[T any](f func() T) func() T {
+	var o Once
+	var v T
+	return func() T {
+		o.Do(func() { v = f() })
+		return v
+	}
+}
+
+// OnceValues mirrors sync.OnceValues.
+func OnceValues[T1, T2 any](f func() (T1, T2)) func() (T1, T2) {
+	var o Once
+	var v1 T1
+	var v2 T2
+	return func() (T1, T2) {
+		o.Do(func() { v1, v2 = f() })
+		return v1, v2
+	}
+}
+
 // OnceFunc mirrors sync.OnceFunc.
 func OnceFunc(f func()) func() {
 	var o Once
